@@ -1774,8 +1774,13 @@ func (w *transformingWriter) Write(data []byte) (n int, err error) {
 
 func (w *transformingWriter) Close() error {
 	if w.expectingBytes == -1 {
-		if err := w.flushMessage(); err != nil {
-			w.rw.reportError(err)
+		// Once the RPC has ended (an error was reported while the handler
+		// was still running) there is nobody to flush the body to: the
+		// buffer behind w.w has been returned to the pool.
+		if w.rw.err == nil {
+			if err := w.flushMessage(); err != nil {
+				w.rw.reportError(err)
+			}
 		}
 	} else if w.err == nil && w.buffer != nil && (w.buffer.Len() > 0 || (!w.writingEnvelope && w.expectingBytes > 0)) {
 		// Unfinished body!
